@@ -249,8 +249,9 @@ def escStringChars : Cps → Cps
 /-- `helper.string(value)` (`helper.py:75-92`) -/
 def helperString (value : Cps) : Cps :=
   let v := escStringChars value
-  -- `if value.endswith('\\'): value = value[:-1] + '\\\\'`
-  let v := if v.getLast? = some cBackslash then v.dropLast ++ [cBackslash, cBackslash] else v
+  -- `if (len(value) - len(value.rstrip('\\'))) % 2: value = value + '\\'` (`helper.py:89-93`): only an odd run of trailing
+  -- backslashes would escape the closing quote
+  let v := if (v.reverse.takeWhile (· = cBackslash)).length % 2 = 1 then v ++ [cBackslash] else v
   cQuote :: v ++ [cQuote]
 
 /-- `s.replace('\\' + q, q)`: non-overlapping, from the left -/
